@@ -1,0 +1,15 @@
+//go:build verif
+// +build verif
+
+// Verification-only entry point used by /verif (C06 miner stage, build tag "verif"): wait until the pool has processed a
+// new chain head, through the pool's own reorg loop.  Nothing here is compiled into a normal build.
+
+package core
+
+import "github.com/youchainhq/go-youchain/core/types"
+
+// VerifC06Reset requests a reset from oldHead to newHead (what the pool's loop does on a ChainHeadEvent) and waits
+// until the reorg run that handles it has finished.
+func (pool *TxPool) VerifC06Reset(oldHead, newHead *types.Header) {
+	<-pool.requestReset(oldHead, newHead)
+}
